@@ -112,6 +112,9 @@ def seqAnswer (script : Script) (s : SeqSt) (o : Op) : Option (Resp × SeqSt) :=
     if (s.env.locks x).killed && (k != .unlockX && k != .unlockS) then plain s false
     else
       let s := s.samplePoison
+      -- the harness's raw unlock asks `ThreadKey::get()`: obtainable iff no key of this thread is alive
+      let s := if (k == .unlockX || k == .unlockS) && !s.env.keyFlag me
+               then { s with trace := .mark mkKeyInUnlock :: s.trace } else s
       let occ := s.count x k
       let s' := s.bump x k
       match script.find x k occ with
